@@ -248,6 +248,11 @@ class CombinedDataHandler:
 
         non_modeled_units_list = [units_blocklisted, units_with_zero_baseline, units_with_strange_turnout_factor]
 
+        # the outlier models are models too: units that are excluded anyway (blocklisted, zero baseline, turnout factor
+        # outside the limits) must not take part in fitting them, or their results would decide which other units are used
+        already_excluded = pd.concat(non_modeled_units_list).geographic_unit_fips
+        reporting_units = reporting_units[~reporting_units.geographic_unit_fips.isin(already_excluded)].reset_index(drop=True)
+
         if fit_turnout_outlier_model and reporting_units.shape[0] > self.n_minimum_for_outlier_detection_model:
             units_with_strange_turnout_factor_modeled = self._fit_outlier_detection_model(
                 reporting_units, "turnout_factor", outlier_z_threshold
